@@ -100,8 +100,10 @@ CLAIMS = {
               "the consumer of first(); the order/time at which results become available is Queue/Task semantics (C10/C06), not restated.",
               "5/C16"),
  "C17": claim("_subclasscheck_specialisation is proved equal to the Match predicate of the property for all tuples and any subclass "
-              "relation; __subclasscheck__/__instancecheck__ dispatch and agree.",
-              "Not under contract: __getitem__/_get_specialisation (cache identity), flattened(), Concurrent.__new__; the `except` clause "
+              "relation; __subclasscheck__/__instancecheck__ dispatch and agree; flattened() returns exactly the leaf exceptions of the "
+              "hierarchy in depth-first order (leaves() is an uninterpreted spec function with its defining equations).",
+              "The equations of leaves() are part of the specification, one consequence (offsets == indices without nesting) is an "
+              "induction not mechanised. Not under contract: __getitem__/_get_specialisation (cache identity), Concurrent.__new__; the `except` clause "
               "does not consult __subclasscheck__ on this interpreter (measured in setup; DESIGN 6/D8) -- not decided by an obligation.", "5/C17"),
  "C20": claim("Suspension counters: at least one suspension on every normal-completion path (per step for async generators) of "
               "postpone, suspend, Notification/Condition/After/Before/Moment/Instant awaits, Flag.set, Task.__await__, Scope.__await__, "
